@@ -437,6 +437,35 @@ func (x *sqlExec) runSelectCore(s *selectStmt, outer *scope) (*relation, error) 
 				return &relation{cols: []string{name}, rows: []relRow{{vals: []Val{bigFromInt(int64(len(rows)))}}}}, nil
 			}
 		}
+		// SELECT bool_or(<expr>) / bool_and(<expr>) FROM ... : one row, NULL over no (non-null) input
+		if f, ok := s.cols[0].e.(*eFunc); ok && (f.name == "bool_or" || f.name == "bool_and") && len(f.args) == 1 {
+			var acc Val
+			for _, r := range rows {
+				v, err := x.eval(f.args[0], &scope{binds: r.binds, outer: outer})
+				if err != nil {
+					return nil, err
+				}
+				b, isBool := v.(bool)
+				if v == nil {
+					continue
+				}
+				if !isBool {
+					return nil, unsupported("bool aggregate over a non-boolean")
+				}
+				if acc == nil {
+					acc = b
+				} else if f.name == "bool_or" {
+					acc = acc.(bool) || b
+				} else {
+					acc = acc.(bool) && b
+				}
+			}
+			name := f.name
+			if s.cols[0].alias != "" {
+				name = s.cols[0].alias
+			}
+			return &relation{cols: []string{name}, rows: []relRow{{vals: []Val{acc}}}}, nil
+		}
 	}
 	// projection
 	out := &relation{}
